@@ -361,25 +361,25 @@ def load_docs(ctx):
 def check_inmmio(ctx, R5):
     """window test: base <= a < base + MMIOSize, with the upper bound NOT truncated to 16 bits (shared with C11.V6)"""
     from ..intervals import Intervals
+    from .. import summ, boolform
     f = ctx.fn('Teakra::MemoryInterfaceUnit::InMMIO(unsigned short) const')
     IV = Intervals(ctx.F, {})
-    lower = upper = False
+    BASE = 'f:Teakra::MemoryInterfaceUnit::mmio_base'
+    # the bound expressions as written (whichever side of the comparison they are on)
+    uppers = []
     for n in walk(f['body']):
         if n.get('k') == 'bin' and n.get('op') in ('<', '<=', '>', '>='):
-            l, r = n['lhs'], n['rhs']
-            op = n['op']
-            if render(r, f) == '$0':
-                l, r = r, l
-                op = {'<': '>', '>': '<', '<=': '>=', '>=': '<='}[op]
-            if render(l, f) != '$0':
-                continue
-            if op == '>=' and render(r, f) == 'f:Teakra::MemoryInterfaceUnit::mmio_base':
-                lower = True
-            if op == '<':
-                iv = IV.iv(r, f)
-                if iv == (0x800, 0xFFFF + 0x800) and 'mmio_base' in render(r, f):
-                    upper = True
-    if not (lower and upper):
+            for a, b in ((n['lhs'], n['rhs']), (n['rhs'], n['lhs'])):
+                if render(a, f) == '$0' and 'mmio_base' in render(b, f) and render(b, f) != BASE:
+                    uppers.append(b)
+    SM = summ.summary(ctx, f)
+    got = SM.return_formula()
+    ok = False
+    for u in uppers:
+        want = boolform.all_of(boolform.neg(boolform.A('(< $0 %s)' % BASE)), boolform.A('(< $0 %s)' % SM.R.r(u)))
+        if boolform.equivalent(got, want) is True and IV.iv(u, f) == (0x800, 0xFFFF + 0x800):
+            ok = True
+    if not ok:
         ctx.report(R5, f, f['body'], 'MemoryInterfaceUnit::InMMIO',
                    'window test is not mmio_base <= addr < mmio_base + MMIOSize evaluated without 16-bit truncation '
-                   '(a window relocated to 0xF800.. would not match, or low addresses would alias it): ' + render_stmt(f['body'], f, inline_locals=False)[:200])
+                   '(a window relocated to 0xF800.. would not match, or low addresses would alias it): ' + boolform.show(got)[:200])
